@@ -1,5 +1,5 @@
 (* C01: the composition of the stage theorems with the Fun -> Core link DISCHARGED for the fragment of
-   C02_fun2core_correct_fragment2 (no call of main, well-scoped; no capture guard since fix <commitcap>): the
+   C02_fun2core_correct_fragment2 (no call of main, well-scoped; no capture guard since fix d5d4151): the
    remaining hypotheses are the focusing, shrinking and x86-64 code generation links. *)
 From Coq Require Import List ZArith NArith String Ascii Bool Lia.
 From SCC Require Import Base.Sexp Lang.AxSyn Lang.FunSyn Lang.CoreSyn Sem.AxSem Sem.CoreSem Sem.FunSem Sem.X86Sem
